@@ -331,8 +331,10 @@ def run(ctx: Ctx) -> None:
     rule_counter_condition(ctx)
     rule_canon_reduced(ctx)
     tableau.rule_fresh_storage(ctx)
-    from .c11 import rule_inverse_blocks
+    from .c11 import rule_inverse_blocks, rule_replay, rule_reverse_table
     rule_inverse_blocks(ctx)
+    rule_reverse_table(ctx)   # a Clifford tableau built from stabilizers replays the inverse circuit: fidelity / equality of such states read it
+    rule_replay(ctx)
     from ..rules import effects as _eff
     _eff.rule_weighted_fidelity(ctx)  # Infidelity on stabilizer targets: sum_i p_i F(target, branch_i)
     from .c17 import rule_metric_value
